@@ -249,7 +249,9 @@ func extremeCombos(k int) []combo {
 			spec: func(int) *pbes.Spec { return &pbes.Spec{Cipher: "SM4-GCM", PRF: "SHA1", Iter: it} },
 			alt:  defaultPRFAbsent("PBES2", "PBKDF2", "SHA1", "SM4-GCM", iter)},
 		{name: fmt.Sprintf("SMPBES/SMPBKDF/SM4-CBC iter=%d", it),
-			mk: func(_ io.Reader, salt, _ int) (pkcs.PBESEncrypter, error) { return pkcs.NewSMPBESEncrypter(salt, it), nil },
+			mk: func(_ io.Reader, salt, _ int) (pkcs.PBESEncrypter, error) {
+				return pkcs.NewSMPBESEncrypter(salt, it), nil
+			},
 			spec: func(int) *pbes.Spec {
 				return &pbes.Spec{Scheme: "SMPBES", Cipher: "SM4-CBC", KDF: "SMPBKDF", PRF: "SM3", Iter: it}
 			},
